@@ -259,7 +259,13 @@ func checkC13(c *core.Ctx) {
 		a = baseEquivProject(c, fmt.Sprintf("ra%d", v), 1340+int64(v), nil)
 		b = clone(a, fmt.Sprintf("rb%d", v))
 		b.Cfg.CropFileFormat = "csv"
-		add(&pairCase{Name: a.Name, What: "rotation txt vs csv", A: a, B: b})
+		what := "rotation txt vs csv"
+		if v%2 == 1 {
+			// the reader finds the columns of the CSV rotation by their header names: another column order, same content
+			b.RotCSVOrder = [][]int{{0, 5, 1, 6, 2, 4, 7, 3}, {7, 6, 5, 4, 3, 2, 1, 0}, {0, 1, 2, 3, 5, 4, 7, 6}}[(v/2)%3]
+			what = fmt.Sprintf("rotation txt vs csv with the columns in the order %v", b.RotCSVOrder)
+		}
+		add(&pairCase{Name: a.Name, What: what, A: a, B: b})
 		// (4) measured initial values text vs csv (profiles that end inside the deepest sampling interval included)
 		a = baseEquivProject(c, fmt.Sprintf("ma%d", v), 1360+int64(v), nil)
 		if v%2 == 1 {
